@@ -93,7 +93,7 @@ macro_rules! rem_modulo_impl {
     ( $field:ident, $op_store:ty ) => {
         impl $field {
             #[must_use]
-            #[cfg_attr(kani, kani::ensures(|r: &Self| verif_kani::reduce_post(u128::from(input), r)))]
+            #[cfg_attr(kani, kani::ensures(|r: &Self| verif_kani::reduce_base_post(input, r)))]
             fn modulo_prime_base(input: $op_store) -> Self {
                 #[allow(clippy::cast_possible_truncation)]
                 Self((input % <$op_store>::from(Self::PRIME)) as <Self as SharedValue>::Storage)
@@ -586,7 +586,7 @@ mod fp61bit {
         }
 
         #[must_use]
-        #[cfg_attr(kani, kani::ensures(|r: &Self| verif_kani::reduce_post(val, r)))]
+        #[cfg_attr(kani, kani::ensures(|r: &Self| verif_kani::reduce_base_post(val, r)))]
         fn modulo_prime_base(val: u128) -> Self {
             Self::modulo_prime_u128(val)
         }
